@@ -201,6 +201,11 @@ def u2_files(sc, root: str) -> dict:
                                                   f"class {nm[1]}(_Base{s}):\n    def m_d1(self) -> int:\n        ...\n\n\n"
                                                   f"class {nm[2]}(_Base{s}):\n    def m_shared(self, from_own: int) -> int:\n        ...\n\n    def m_d2(self) -> int:\n        ...\n")
         files[f"{sid}/sub/{nm['m2']}.py"] = "def fillb" + s + "() -> int:\n    ...\n"
+    if sc.get("variant") == "newtype":       # module 1 also defines a NewType, module 2 uses it
+        m1, m2 = f"{sid}/sub/deep/{nm['m1']}.py", f"{sid}/sub/{nm['m2']}.py"
+        files[m1] = f"from typing import NewType\n\nIdent{s} = NewType(\"Ident{s}\", int)\n\n\n" + files[m1]
+        files[m2] = (f"from {root}.{sid}.sub.deep.{nm['m1']} import Ident{s}\n\n\n" + files[m2]
+                     + f"\n\ndef uses_ident{s}(u: Ident{s}) -> Ident{s}:\n    ...\n")
     if sc.get("variant") in ("privtwin", "privtwindeep"):      # module 2 moves into a private package
         hid = f"{sid}/_hid" if sc["variant"] == "privtwin" else f"{sid}/sub/deep/_hid"
         del files[f"{sid}/sub/{nm['m2']}.py"]
